@@ -195,6 +195,7 @@ class Check:
         if not quiet: self.say('  [P] ' + rep.summary())
         if rep.status == 'undecided':
             self.undecided_notes.append(f'{contract.name}: {rep.reason}')
+            self.native_fallback(contract, rep)
             return rep
         if not rep.obligations:
             self.faults.append(f'{contract.name}: zero obligations generated (vacuous)')
@@ -203,7 +204,52 @@ class Check:
             self.handle_failed(contract, ob)
         for ob in rep.undecided:
             self.undecided_notes.append(f'{ob.name}: {ob.detail}')
+        if rep.undecided: self.native_fallback(contract, rep)
         return rep
+
+    def native_fallback(self, contract, rep, max_candidates=2000, budget_s=20.0):
+        """The contract, or some of its obligations, cannot be decided on the current source (the code left the modelled subset, or a path is
+        over-approximated).  Undecided is not a violation.  What can still be done soundly: candidate inputs -- the solver's models of the undecided
+        obligations (inputs are concrete there even though intermediate values are havoc) and the contract's native search family -- are run on the
+        real function and the contract is evaluated on the concrete outcome.  Only a candidate on which the real code violates a clause is reported,
+        with that input; otherwise the contract stays undecided.  This is a bounded stand-in (labelled so in the evidence), never counted as proved."""
+        rp = contract.replay
+        if rp is None or not (rp.call or all(isinstance(v, str) and v in ('int', 'bool', 'str') for v in contract.params.values())): return
+        t0 = time.time(); n = 0; found = None
+
+        def candidates():
+            seen = set()
+            for ob in rep.undecided:
+                if ob.model is None: continue
+                try:
+                    if rp.lower_z3: py = rp.lower_z3(ob.z3model, ob)
+                    else: py = rp.lower(ob.model) if rp.lower else {k: lower_param(contract.params[k], k, ob.model) for k in contract.params}
+                except Exception: continue
+                k = repr(sorted(py.items(), key=lambda kv: kv[0])) if isinstance(py, dict) else repr(py)
+                if k not in seen:
+                    seen.add(k); yield py, ob
+            if rp.search:
+                for py in rp.search(): yield py, None
+        try:
+            for py, ob in candidates():
+                if n >= max_candidates or time.time() - t0 > budget_s: break
+                n += 1
+                outcome = native_outcome(contract, py)
+                try:
+                    if rp.judge: pre, bad = True, rp.judge(py, outcome, ob)
+                    else: pre, bad = native_check(contract, py, outcome)
+                except Exception: continue
+                if pre and bad:
+                    found = (py, outcome, bad); break
+        except Exception as ex:
+            self.undecided_notes.append(f'{contract.name}: native fallback failed: {type(ex).__name__}: {ex}')
+        self.bounded_runs.append({'name': f'native fallback for the undecided contract {contract.name}', 'bound': f'<= {max_candidates} candidates: models of undecided obligations + the contract\'s native search family, {budget_s:.0f} s',
+                                  'evaluations': n, 'distinct_classes': None, 'witnesses': 1 if found else 0, 'wall_s': round(time.time() - t0, 2), 'samples': []})
+        if found:
+            py, outcome, bad = found
+            rec = {'function': contract.target, 'input': {k: repr(v) for k, v in py.items() if not k.startswith('_')}, 'native_outcome': [outcome[0], repr(outcome[1])[:400]], 'natively_violated': bad,
+                   'found_by': 'the contract is undecided on the current source; this candidate input was run on the real function and violates the contract'}
+            self.violation(f'{contract.name}#native:{bad[0][:120]}', f'{contract.name} (undecided by the verifier on the current source) violates its contract on input {rec["input"]}: real code gives {rec["native_outcome"]}, violating {bad}', rec)
 
     def handle_failed(self, contract, ob):
         key = re.sub(r' ?@path\d+', '', f'{contract.name}#{ob.clause}')        # one violation per clause, not per path
